@@ -31,7 +31,7 @@ def run_one(pid, patch, tier='quick', seed='1', keep_out=False):
     t0 = time.time()
     r = subprocess.run([os.path.join(ROOT, 'check'), pid, tier], env=env, capture_output=True, text=True)
     out = r.stdout + r.stderr
-    lines = [l for l in out.splitlines() if l.startswith(('VIOLATION', 'FAIL', 'HARNESS', 'KNOWN'))]
+    lines = [l for l in out.splitlines() if l.startswith(('VIOLATION', 'FAIL', 'HARNESS'))]
     return {'pid': pid, 'patch': os.path.relpath(patch, ROOT), 'rc': r.returncode, 'wall': round(time.time() - t0, 1),
             'tail': '\n'.join(lines[:6]) if lines else out[-600:]}
   finally:
